@@ -310,16 +310,24 @@ Definition graph_build (sample : N) (rootname : name) (tids : list N) (s : strea
 Fixpoint sum_time (ks : list node) : N :=
   match ks with [] => 0 | k :: r => add64 (n_time k) (sum_time r) end.
 
-(* `uftrace graph` (full graph): rows in print order: tree depth, name, nr_calls, total-time field *)
-Definition grow := (N * name * N * option (N * N * N))%type.
-Fixpoint graph_rows_node (d : N) (n : node) : list grow :=
+(* All four printers walk the tree depth first, children in list (= creation) order.  [walk] lists the
+   nodes below the root in that order with their name path and their parent node. *)
+Fixpoint walk (par : node) (prefix : path) (n : node) : list (path * node * node) :=
   match n with
-  | Node _ m c t _ ks => (d, m, c, time_unit t) :: flat_map (graph_rows_node (d + 1)) ks
+  | Node _ m _ _ _ ks => (prefix ++ [m], par, n) :: flat_map (walk n (prefix ++ [m])) ks
   end.
+Definition walk_root (root : node) : list (path * node * node) := flat_map (walk root []) (n_kids root).
+Definition w_path (e : path * node * node) : path := fst (fst e).
+Definition w_par (e : path * node * node) : node := snd (fst e).
+Definition w_node (e : path * node * node) : node := snd e.
+
+(* `uftrace graph` (full graph), print_graph_node: rows in print order: tree depth, name, nr_calls, total time *)
+Definition grow := (N * name * N * option (N * N * N))%type.
 Definition graph_rows (root : node) : list grow :=
   (* root: printed as '(1) <exename>', its time is the sum over the first-level nodes *)
   (0, n_name root, 1, time_unit (sum_time (n_kids root)))
-  :: flat_map (graph_rows_node 1) (n_kids root).
+  :: map (fun e => (N.of_nat (length (w_path e)), n_name (w_node e), n_calls (w_node e), time_unit (n_time (w_node e))))
+         (walk_root root).
 
 Fixpoint join (sep : N) (l : list name) : list N :=
   match l with
@@ -328,45 +336,40 @@ Fixpoint join (sep : N) (l : list name) : list N :=
   | x :: r => x ++ sep :: join sep r
   end.
 
-(* print_flame_graph: (text before the count, count) *)
-Fixpoint flame_node (sample : N) (prefix : path) (n : node) : list (list N * N) :=
-  match n with
-  | Node _ m c t ct ks =>
-      let p := prefix ++ [m] in
-      let cnt := if (c =? 0) || (sample =? 0) then c else sub64 t ct / sample in
-      (if cnt =? 0 then [] else [(join 59 p, cnt)]) ++ flat_map (flame_node sample p) ks
-  end.
+(* print_flame_graph: (name path, count) of every printed line; the root has no name and nr_calls = 0 *)
+Definition flame_count (sample : N) (n : node) : N :=
+  if (n_calls n =? 0) || (sample =? 0) then n_calls n else sub64 (n_time n) (n_ctime n) / sample.
+Definition flame_rows (sample : N) (root : node) : list (path * N) :=
+  flat_map (fun e => let cnt := flame_count sample (w_node e) in
+                     if cnt =? 0 then [] else [(w_path e, cnt)]) (walk_root root).
 Definition flame_lines (sample : N) (root : node) : list (list N * N) :=
-  flat_map (flame_node sample []) (n_kids root).      (* root: name NULL, nr_calls 0 *)
+  map (fun r => (join 59 (fst r), snd r)) (flame_rows sample root).
 (* the count is written with snprintf(ptr, len, '%lu', sample) where len = sum over the names of
    strlen + 1 = length of the joined text + 1: at most [length (fst l)] digits survive *)
 Definition flame_text (l : list N * N) : list N := fst l ++ 32 :: firstn (length (fst l)) (dec (snd l)).
 Definition flame_text_full (l : list N * N) : list N := fst l ++ 32 :: dec (snd l).
 Definition flame_fits (l : list N * N) : bool := Nat.leb (length (dec (snd l))) (length (fst l)).
 
-(* print_graph_to_graphviz: the line without the leading blanks and the newline *)
+(* print_graph_to_graphviz: (parent name, name, nr_calls) per printed edge; the root itself has nr_calls 0 *)
+Definition dot_rows (root : node) : list (name * name * N) :=
+  flat_map (fun e => if n_calls (w_node e) =? 0 then []
+                     else [(n_name (w_par e), n_name (w_node e), n_calls (w_node e))]) (walk_root root).
 Definition dq (s : list N) : list N := 34 :: s ++ [34].
 Definition s_arrow : list N := [32; 45; 62; 32].                                     (* ' -> ' *)
-Definition s_xlabel : list N := [32; 91; 120; 108; 97; 98; 101; 108; 32; 61; 32; 34].   (* ' [xlabel = \'' *)
-Fixpoint dot_node (parent : name) (n : node) : list (list N) :=
-  match n with
-  | Node _ m c _ _ ks =>
-      (if c =? 0 then [] else [dq parent ++ s_arrow ++ dq m ++ s_xlabel ++ dec c ++ [34; 93]])
-      ++ flat_map (dot_node m) ks
-  end.
-Definition dot_lines (root : node) : list (list N) :=
-  flat_map (dot_node (n_name root)) (n_kids root).       (* root itself: nr_calls 0 *)
+Definition s_xlabel : list N := [32; 91; 120; 108; 97; 98; 101; 108; 32; 61; 32; 34].   (* ' [xlabel = ' + quote *)
+Definition dot_text (r : name * name * N) : list N :=      (* the line without the leading blanks *)
+  let '(a, b, c) := r in dq a ++ s_arrow ++ dq b ++ s_xlabel ++ dec c ++ [34; 93].
+Definition dot_lines (root : node) : list (list N) := map dot_text (dot_rows root).
 
-(* print_graph_node_mermaid: '  D_ID['name'] -->|calls| D+1_ID['child'];' *)
+(* print_graph_node_mermaid: '  D_ID[name] -->|calls| D+1_ID[child];' - one line per node below the root,
+   printed right before its subtree *)
 Definition mm_ref (d id : N) (m : name) : list N :=
   dec d ++ 95 :: dec id ++ [91; 34] ++ m ++ [34; 93].
-Fixpoint mermaid_node (d : N) (n : node) : list (list N) :=
-  match n with
-  | Node i m _ _ _ ks =>
-      flat_map (fun k => ([32; 32] ++ mm_ref d i m ++ [32; 45; 45; 62; 124] ++ dec (n_calls k) ++ [124; 32]
-                          ++ mm_ref (d + 1) (n_id k) (n_name k) ++ [59]) :: mermaid_node (d + 1) k) ks
-  end.
-Definition mermaid_lines (root : node) : list (list N) := mermaid_node 0 root.
+Definition mermaid_text (e : path * node * node) : list N :=
+  let d := N.of_nat (length (w_path e)) in
+  [32; 32] ++ mm_ref (d - 1) (n_id (w_par e)) (n_name (w_par e)) ++ [32; 45; 45; 62; 124]
+  ++ dec (n_calls (w_node e)) ++ [124; 32] ++ mm_ref d (n_id (w_node e)) (n_name (w_node e)) ++ [59].
+Definition mermaid_lines (root : node) : list (list N) := map mermaid_text (walk_root root).
 
 (* ------------------------------------------------------------------------------------------ *)
 (* 7. chrome trace events                                                                      *)
@@ -478,21 +481,31 @@ Fixpoint nodup_paths (l : list path) (seen : list path) : list path :=
 (* distinct call paths in the order of their first ENTRY (= creation order of the graph nodes) *)
 Definition ref_paths (s : stream) : list path := nodup_paths (ref_entries [] s) [].
 
-(* well-formed input: every EXIT closes the innermost open call of its task and carries its name,
+(* well-formed input: every EXIT closes the innermost open call of its task and carries its name;
    time stamps do not go backwards inside a task and fit 64 bits *)
 Fixpoint wf_run (st : list (N * rstack)) (s : stream) : bool :=
   match s with
   | [] => true
-  | (tid, Ent x t) :: r =>
-      (t <? W64) && (match r_get tid st with [] => true | (_, t0) :: _ => t0 <=? t end)
-      && wf_run (r_set tid ((x, t) :: r_get tid st) st) r
+  | (tid, Ent x t) :: r => wf_run (r_set tid ((x, t) :: r_get tid st) st) r
   | (tid, Ext x t) :: r =>
       match r_get tid st with
       | [] => false
-      | (y, t0) :: k => name_eqb x y && (t0 <=? t) && (t <? W64) && wf_run (r_set tid k st) r
+      | (y, t0) :: k => name_eqb x y && wf_run (r_set tid k st) r
       end
   end.
-Definition wf_stream (s : stream) : bool := wf_run [] s.
+Fixpoint l_get (tid : N) (l : list (N * N)) : N :=
+  match l with [] => 0 | (k, v) :: r => if k =? tid then v else l_get tid r end.
+Fixpoint l_set (tid : N) (v : N) (l : list (N * N)) : list (N * N) :=
+  match l with
+  | [] => [(tid, v)]
+  | (k, v0) :: r => if k =? tid then (k, v) :: r else (k, v0) :: l_set tid v r
+  end.
+Fixpoint mono_run (ls : list (N * N)) (s : stream) : bool :=
+  match s with
+  | [] => true
+  | (tid, e) :: r => (l_get tid ls <=? ev_time e) && (ev_time e <? W64) && mono_run (l_set tid (ev_time e) ls) r
+  end.
+Definition wf_stream (s : stream) : bool := wf_run [] s && mono_run [] s.
 
 (* ---- byte-string multisets ---- *)
 Fixpoint bytes_eqb (a b : list N) : bool :=
